@@ -57,21 +57,21 @@ def jobs(tier, seed):
     L("gibbs", d=1, target="gauss", T=1.0, wf=3.0)
     L("gibbs", d=3, target="gauss", T=1.0, wf=1.0)
     L("gibbs", d=2, target="banana", T=7.0, wf=0.3)
-    L("gibbs", d=3, target="gauss", T=2.5, wf=5.0, limits="boundaries")
+    L("gibbs", d=3, target="gauss", T=2.5, wf=5.0, limits="boundaries", offset=-1e4)
     L("gibbs", d=2, target="gamma", T=1.0, wf=1.0, limits="nonneg")
     L("pca", d=3, target="gauss", T=1.0, wf=1.0)
-    L("pca", d=2, target="banana", T=2.5, wf=0.5)
+    L("pca", d=2, target="banana", T=2.5, wf=0.5, offset=3e5)
     L("pca", d=3, target="gauss", T=1.0, wf=3.0, bounded=True)
     L("hmc", d=3, target="gauss", T=1.0, mass="default", steps=1200 if q else 6000)
-    L("hmc", d=2, target="banana", T=2.5, mass="vector", steps=1200 if q else 6000)
+    L("hmc", d=2, target="banana", T=2.5, mass="vector", steps=1200 if q else 6000, offset=-1e6)
     L("hmc", d=3, target="gauss", T=1.0, mass="matrix", steps=1200 if q else 6000)
     L("hmc", d=2, target="gauss", T=7.0, mass="vector", bounded=True, steps=1200 if q else 6000)
     L("ensemble", d=2, target="gauss", alpha=2.0, steps=500 if q else 2500)
-    L("ensemble", d=4, target="gauss", alpha=3.5, steps=400 if q else 2000)
+    L("ensemble", d=4, target="gauss", alpha=3.5, steps=400 if q else 2000, offset=-1e5)
     L("ensemble", d=3, target="banana", alpha=1.4, steps=400 if q else 2000)
     # distribution level (regimes with exact attempt weights)
     D("metropolis", d=1, target="normal", T=1.0, wf=2.4)
-    D("metropolis", d=2, target="normal", T=2.5, wf=1.0)
+    D("metropolis", d=2, target="normal", T=2.5, wf=1.0, offset=-3e6)
     D("gibbs", d=1, target="normal", T=1.0, wf=2.4)
     D("gibbs", d=1, target="normal", T=7.0, wf=0.5)
     D("gibbs", d=1, target="gamma", T=1.0, wf=1.0, limits="nonneg")
@@ -79,7 +79,7 @@ def jobs(tier, seed):
     D("gibbs", d=3, target="normal", T=1.0, wf=1.5)
     D("pca", d=1, target="normal", T=2.5, wf=2.0)
     D("hmc", d=2, target="normal", T=1.0, mass="default", steps=2500 if q else 12000)
-    D("hmc", d=2, target="normal", T=2.5, mass="vector", steps=2500 if q else 12000)
+    D("hmc", d=2, target="normal", T=2.5, mass="vector", steps=2500 if q else 12000, offset=2e4)
     D("hmc", d=2, target="normal", T=1.0, mass="matrix", steps=2500 if q else 12000)
     D("hmc", d=1, target="truncnorm", T=1.0, mass="vector", bounded=True, steps=2500 if q else 12000)
     D("hmc", d=1, target="truncnorm", T=7.0, mass="vector", bounded=True, steps=2500 if q else 12000)
@@ -127,6 +127,14 @@ class Gamma1D:
 
 
 def make_target(job, rng):
+    tgt, sc, law = _make_target(job, rng)
+    if job.get("offset"):
+        # the same density with a constant added to its logarithm (what a real log-likelihood looks like)
+        tgt = mc.OffsetTarget(tgt, job["offset"])
+    return tgt, sc, law
+
+
+def _make_target(job, rng):
     d, name = job["d"], job["target"]
     if name == "gauss":
         A = rng.normal(size=(d, d))
